@@ -1,0 +1,7 @@
+//go:build !verif
+// +build !verif
+
+package media
+
+// verifInitConsumption does nothing without the verif tag.
+func verifInitConsumption(c *consumption) {}
